@@ -332,6 +332,8 @@ def check_defined(model, rep):
 
 
 def check(model, rep):
+    from checks.solver_common import absorb_cmp
+    absorb_cmp(model, rep, 'C15.dep.cmp', ('AngularPosition', 'Angle', 'Time', 'TimeInterval'))
     rep.explain('C15: the four rule classes and Timer evaluated by gated value numbering (sensor reads inlined to the '
                 'target attribute, the efficiency product summarised as one reduction atom); activity windows compared '
                 'as exhaustive truth tables over the canonical comparison atoms (operators and inclusive ends), proposal '
